@@ -78,7 +78,10 @@ DKind    == IF Tgt = 0 THEN "none"
 \* POU, method, type, namespace) is also the name of another declaration of the project
 \* (PROGRAM P and METHOD P, FUNCTION F and FUNCTION Ns.F, FUNCTION F and a variable F) --
 \* in the project as it is, or in the project as edited
-HomonymsIn(p) == \E d \in {x \in p.decls : x.owns # 0}, e \in p.decls : d.id # e.id /\ d.name = e.name
+\* (a STRUCT type and a variable / field / parameter of the same spelling are NOT of this class:
+\* a structure has no body that is found by name, and `limits : Limits` is ordinary code)
+HomonymsIn(p) == \E d \in {x \in p.decls : x.owns # 0}, e \in p.decls :
+                   d.id # e.id /\ d.name = e.name /\ ~(d.kind = "struct" /\ e.owns = 0)
 Homonyms == HomonymsIn(proj)
 HomonymsAfter == HomonymsIn(ApplyEdits(proj, Obs, E.new))
 \* the first class (in the order of Rename!Safe) that makes the request unsafe
